@@ -1,6 +1,6 @@
 (* C14 — rows use different hash functions: the provable core of "depth buys exp(-depth)".
    (The statistical clauses of the property are tested, not proved; see harness/checks/C14.py.) *)
-From Coq Require Import ZArith List.
+From Coq Require Import ZArith List String.
 From Sketchnu Require Import Machine Consts Hashes HashSpec HashProofs HashInj.
 Import ListNotations.
 Open Scope Z_scope.
@@ -15,6 +15,16 @@ Theorem C14_column_in_range : forall width r k,
   (0 < width)%nat -> Z.of_nat r < 2^64 -> (hash_bucket width r k < width)%nat.
 Proof. exact hash_bucket_lt. Qed.
 Print Assumptions C14_column_in_range.
+
+(* the five kernels that map a key to its counters (three count-min query kernels, heavy-hitter _add and
+   _max_count) compute the column with exactly this expression inside their loop over the rows: re-read from the
+   source on every run *)
+Theorem C14_row_seed_in_source :
+  let e := "for row in range(depth): fasthash64(key, row) % width"%string in
+  Consts.rowhash_query_linear = e /\ Consts.rowhash_query_log16 = e /\ Consts.rowhash_query_log8 = e /\
+  Consts.rowhash_hh_add = e /\ Consts.rowhash_hh_max_count = e.
+Proof. exact rowhash_sites_ok. Qed.
+Print Assumptions C14_row_seed_in_source.
 
 (* for a fixed key, seed -> fasthash64 key seed is injective on [0, 2^64) *)
 Theorem C14_seed_bijective : forall (k : key) (s1 s2 : Z),
